@@ -86,6 +86,7 @@ type world struct {
 	caCert *x509.Certificate
 	caKey  *ecdsa.PrivateKey
 	serial int64
+	memo   map[string]bool // (cert, digest, signature) -> ecdsa.VerifyASN1
 }
 
 // provider: trust.Provider over the real sqlite trust DB (chain validation against TRCs is
@@ -121,7 +122,7 @@ func (w *world) mkCert(ia addr.IA, pub crypto.PublicKey, skid []byte, nb, na tim
 }
 
 func newWorld(r *vlib.Rand, name string) *world {
-	w := &world{byIA: map[addr.IA][]*certKey{}}
+	w := &world{byIA: map[addr.IA][]*certKey{}, memo: map[string]bool{}}
 	var err error
 	w.db, err = sqlite.New(name, &db.SqliteConfig{InMemory: true})
 	if err != nil {
@@ -336,13 +337,27 @@ func (w *world) facts(pb *cppb.PathSegment) segFacts {
 			ef.parsed, ef.local, ef.exp = true, e.Local, e.HopEntry.HopField.ExpTime
 			fmt.Fprintf(&sb, " B %d %d", uint64(e.Local), e.HopEntry.HopField.ExpTime)
 		}
+		if len(w.memo) > 200000 {
+			w.memo = map[string]bool{}
+		}
 		// the primitive's verdict per certificate, over sha(hb || info || earlier hb || earlier sig ...)
+		// (only certificates of the entry's ISD-AS or of the ISD-AS named by the key id can be
+		// consulted by the verifier or by the statement; the others are left at 0 unchecked)
 		dig := hashFor(algo, append(append([]byte(nil), hb...), ad...))
 		bits := make([]byte, len(w.certs))
 		ef.sigok = make([]bool, len(w.certs))
 		for j, c := range w.certs {
 			bits[j] = '0'
-			if dig != nil && c.ecPub != nil && ecdsa.VerifyASN1(c.ecPub, dig, sig) {
+			if dig == nil || c.ecPub == nil || !(ef.parsed && c.ia == ef.local || ef.kidOK && c.ia == ef.kidIA) {
+				continue
+			}
+			mk := fmt.Sprintf("%d/%x/%x", j, dig, sig)
+			ok, seen := w.memo[mk]
+			if !seen {
+				ok = ecdsa.VerifyASN1(c.ecPub, dig, sig)
+				w.memo[mk] = ok
+			}
+			if ok {
 				bits[j] = '1'
 				ef.sigok[j] = true
 			}
@@ -517,7 +532,9 @@ func alterBody(r *vlib.Rand, others []addr.IA) (string, func([]byte) []byte) {
 		case 10:
 			e.Extensions = &cppb.PathSegmentExtensions{HiddenPath: &cppb.HiddenPathExtension{IsHidden: true}}
 		case 11:
-			e.IsdAs = uint64(others[r.Intn(len(others))])
+			for old := e.IsdAs; e.IsdAs == old; {
+				e.IsdAs = uint64(others[r.Intn(len(others))])
+			}
 		}
 		out, _ := proto.Marshal(&e)
 		return out
@@ -700,7 +717,16 @@ func (e *env) judge(m mutant, orig *cppb.PathSegment, v compat.Verifier, tag str
 		e.Violate("C24/panic", "verification panicked: "+ans, e.replay(m.name, m.note, m.pb, orig, f, ans))
 		return o
 	}
+	for i, ef := range f.entries {
+		if ef.parsed && ef.local.IsWildcard() { // assumption BodyNoWildcard of the theorems
+			e.Violate("C24/wildcard-local-parsed", fmt.Sprintf("ASEntryFromPB accepted a wildcard local ISD-AS at entry %d", i),
+				e.replay(m.name, m.note, m.pb, orig, f, ans))
+		}
+	}
 	holds, named := e.w.stmt(f)
+	if orig != nil && proto.Equal(m.pb, orig) {
+		m.mustFail = false // the mutation did not change anything
+	}
 	switch {
 	case o.ok && !holds:
 		e.Violate("C24/accepted-"+m.name, "segment verifies although not every entry is signed by a key certified "+
@@ -778,7 +804,7 @@ func main() {
 		"plus dishonest constructions (wrong AS key, uncertified key, forged key id, certificate not covering the lifetime, " +
 		"boundary lifetimes); distinct = distinct op lines"
 	v := compat.Verifier{Verifier: trust.Verifier{Engine: provider{e.w.db}}}
-	nSeg := e.N(36, 400)
+	nSeg := e.N(50, 400)
 	perKind := e.N(1, 3)
 	neg := 0
 	for i := 0; i < nSeg; i++ {
